@@ -74,6 +74,8 @@ ANNOT_PROGRAMS = [
     "fun pick(o: Option<Int>) {\n  match o {\n    Some(v) => v\n    None => \"nothing\"\n  }\n}\nlet h = fun(b: Bool) { if b { [1] } else { 2.5 } }\nprintln(string_repr(pick(Some(1))))\nprintln(string_repr(pick(None)))\nprintln(string_repr(h(True)))\nprintln(string_repr(h(False)))\n",
     # a bare `return` (Unit) before a final expression of another type; returns inside a closure do not count for the function
     "fun describe(n: Int) {\n  println(\"describe\")\n  if n < 0 {\n    return\n  }\n  n * 2\n}\nprintln(string_repr(describe(2)))\nprintln(string_repr(describe(0 - 1)))\nfun outer(n: Int) {\n  let f = fun(k: Int) {\n    if k > 1 {\n      return\n    }\n    println(\"small\")\n  }\n  f(n)\n  n + 1\n}\nprintln(string_repr(outer(1)))\nprintln(string_repr(outer(5)))\n",
+    # a later match arm reads an outer variable that has the name (and not the type) of an earlier arm's payload
+    "fun describe(r: Result<Int, String>): String {\n  let value = \"no value\"\n  match r {\n    Ok(value) => { string_repr(value) }\n    Err(reason) => {\n      let shown = value\n      reason ^ \": \" ^ shown\n    }\n  }\n}\nprintln(describe(Ok(42)))\nprintln(describe(Err(\"boom\")))\n",
     "method flip(this: Bool) {\n  let r = if this { \"yes\" } else { 0 }\n  if this { r } else { (r, r) }\n}\nprintln(string_repr(True.flip()))\nprintln(string_repr(False.flip()))\nfun early(n: Int) {\n  if n > 1 { return \"big\" }\n  n\n}\nprintln(string_repr(early(1)))\nprintln(string_repr(early(2)))\n",
 ]
 BOUNDED.append(
